@@ -89,10 +89,12 @@ func c19Prop(t *testing.T, k *verifkit.Kit) func(c c19Case) error {
 					}
 					return nil
 				}
-				ctx, cancel := context.WithCancel(context.Background())
-				defer cancel()
+				// no cancellation on the failure paths: a notifier blocked while holding the
+				// watcher's lock must leave every goroutine durably blocked (channel
+				// operations), so that the bubble ends with a recoverable deadlock panic
+				// instead of a goroutine waiting on a mutex, which synctest cannot see
 				watchDone := make(chan struct{})
-				go func() { _ = w.Watch(ctx); close(watchDone) }()
+				go func() { _ = w.Watch(context.Background()); close(watchDone) }()
 				<-started
 				var subs []*c19Sub
 				ended := false
